@@ -98,11 +98,45 @@ def run(ctx):
         ctx.case(("ed", inner, nd, dtwmon.flat(l1), dtwmon.flat(l2)), min(len(l1), len(l2)) >= 2 and (ref > 0 or len(l1) != len(l2)))
         return ref
 
+    class Asym:
+        """legal user-supplied inner distance that is not symmetric in its arguments"""
+        @staticmethod
+        def inner_dist(x, y):
+            return (x - y) ** 2 if x >= y else 2.0 * (x - y) ** 2
+
+        @staticmethod
+        def result(x):
+            return x ** 0.5
+
+        @staticmethod
+        def inner_val(x):
+            return x * x
+
+    for _ in range(ctx.scale(300, 3000)):
+        r, c = rng.randint(1, 9), rng.randint(1, 9)
+        a_, b_ = gen.series(rng, r, "dyadic"), gen.series(rng, c, "dyadic")
+        want_ = oracle.ref_ed(a_, b_, Asym.inner_dist, Asym.result)
+        for name_, f_ in (("ed.distance", lambda: ed.distance(a_, b_, inner_dist=Asym)),
+                          ("dtw.ub_euclidean", lambda: dtw.ub_euclidean(a_, b_, inner_dist=Asym)),
+                          ("dtw.distance(only_ub)", lambda: dtw.distance(a_, b_, only_ub=True, inner_dist=Asym))):
+            try:
+                v_ = float(f_())
+            except Exception as e:
+                ctx.violation("exception", fn=name_, error=repr(e)[:300], s1=a_, s2=b_, inner_dist="asymmetric custom object")
+                continue
+            ctx.count("ub_checks")
+            ctx.count("custom_inner_distance_checks")
+            if not oracle.close(v_, want_):
+                ctx.violation("euclidean-distance-wrong", fn=name_, got=v_, reference=want_, s1=a_, s2=b_,
+                              inner_dist="asymmetric custom object")
     N = ctx.scale(9000, 100000)
-    for _ in range(N):
+    for it_ in range(N):
         r, c = rng.randint(1, 12), rng.randint(1, 12)
         if rng.random() < 0.35:
             c = r
+        if it_ % 150 == 3:
+            r, c = rng.randint(40, 110), rng.randint(40, 110)      # scale-up slice (more than 4096 cells)
+            ctx.count("long_series_cases")
         nd = rng.choice([0, 0, 1, 2, 3])
         kind = rng.choice(["neg", "neg", "alpha", "dyadic", "gauss", "big", "mono"])
         inner = rng.choice(["squared euclidean", "euclidean"])
